@@ -21,7 +21,7 @@ EXHAUSTIVE_SUBDOMAINS = ["every raw value x status x sign of the 29 tabulated fi
                          "temp44 sign x 0..1023", "cap17 each of the 24 capability bits alone and random subsets"]
 ASSUMPTIONS = ["field layouts transcribed from ICAO Doc 9871 (Appendix A tables) into pmv/ref/commb.py",
                "float results compared within 1e-9"]
-REQUIRED = ["field_" + n for n in rc.FIELDS] + ["cap17_redecode_after_caller_edit", "status0", "status1", "sign1", "wind44", "temp44", "cap17", "ovc10", "identity",
+REQUIRED = ["field_" + n for n in rc.FIELDS] + ["cap17_redecode_after_caller_edit", "register_shaped_backgrounds", "status0", "status1", "sign1", "wind44", "temp44", "cap17", "ovc10", "identity",
                                                 "noninterference", "alias"]
 
 
@@ -71,6 +71,30 @@ def m_field(ctx, case):
                     if sign:
                         ctx.hit("sign1")
                     ctx.nontrivial(("f", name, hx))
+        # register-shaped backgrounds: every OTHER field of the same register "available" (status set) and zero / all ones /
+        # a mix, under every flight-status value of the header - the field's answer is its own business
+        if raw % case["flip_every"] == 0:
+            sib = [n_ for n_, v_ in rc.FIELDS.items() if v_[0] == mod and n_ != name]
+            for flavour in ("zero", "ones", "mixed", "unavailable"):
+                bg = 0
+                for n_ in sib:
+                    _m, sb_, gb_, msb_, lsb_ = rc.FIELDS[n_][:5]
+                    w_ = lsb_ - msb_ + 1
+                    val = {"zero": 0, "ones": (1 << w_) - 1, "mixed": rng.getrandbits(w_), "unavailable": 0}[flavour]
+                    bg = rc.place(bg, n_, 0 if flavour == "unavailable" else 1, 1 if flavour == "ones" else 0, val)
+                for st_ in ((0, 1) if sb is not None else (1,)):
+                    sg_ = rng.randrange(2) if gb is not None else 0
+                    mb = rc.place(bg, name, st_, sg_, raw)
+                    exp = rc.expected(name, st_, sg_, raw)
+                    for fs_ in range(8):
+                        hdr = (fs_ << 24) | rng.choice((0, rng.getrandbits(24)))
+                        hx = "%028X" % bits.commb_frame(20 + (fs_ & 1), hdr, mb, rng.choice((0, rng.getrandbits(24))))
+                        r = call(fn, hx)
+                        ctx.ev()
+                        if r[0] != "ok" or not same(r[1], exp):
+                            ctx.violation("field-wrong-on-register-shaped-background-" + name, frame=hx, background=flavour, fs=fs_,
+                                          status=st_, raw=raw, expected=exp, observed=r[1:])
+            ctx.hit("register_shaped_backgrounds")
         # non-interference on this raw value: flip a few bits outside the field (MB, header, parity)
         if raw % case["flip_every"] == 0:
             mb = rc.place(rng.fill(56), name, 1, rng.randrange(2), raw)
